@@ -39,6 +39,9 @@ def gen_spec(r: random.Random, flavor: str, **over) -> dict:
         "think": r.choice([0.0, 0.01, 0.3]),
         "pool_timeout": r.choice([None, None, 5.0]),
         "resp_delay": r.choice([0.0, 0.0, 0.05, 0.5]),
+        # connection attempts that fail (ConnectError / ConnectTimeout) and are retried with back-off by direct connections
+        "retries": r.choice([0, 0, 1, 3]),
+        "connect_fail": r.choice([0.0, 0.0, 0.0, 0.3, 0.6]),
     }
     if proto == "h2":
         spec["proxy"] = r.choice([None, None, "tun", "socks"])
@@ -130,18 +133,23 @@ class Workload:
             net.faults[idx] = None  # resolved lazily by kind
         self._fault_ops = set(spec.get("fault_ops", []))
         frng = random.Random(spec["seed"] + 2)
+        cfail = spec.get("connect_fail", 0.0)
         orig_begin = net.begin_op
 
         def begin(kind, tr, **kw):
             idx, fault = orig_begin(kind, tr, **kw)
             if idx in self._fault_ops:
                 fault = frng.choice(simnet.FAULTS_FOR[kind])
+            elif kind == "connect" and cfail and frng.random() < cfail:
+                fault = frng.choice(["ConnectError", "ConnectTimeout"])
             return idx, fault
         net.begin_op = begin
         kw = dict(max_connections=spec["max_connections"], max_keepalive_connections=spec["max_keepalive"],
                   keepalive_expiry=spec["keepalive_expiry"])
         if proto == "h2":
             kw["http2"] = True
+        if spec.get("retries"):
+            kw["retries"] = spec["retries"]
         kw.update(spec.get("pool_kw", {}))
         self.pool = mk_pool(self.flavor, net, proxy=proxy_cfg, **kw)
         self.api = API(self.flavor, self.pool, net)
